@@ -312,7 +312,7 @@ func c36Runs(r *vlib.Run) {
 				reported[what] = true
 				r.Violation("run.nondeterministic-diagnostics", what, id, map[string]any{
 					"workspace": w.Files, "targets": w.Targets, "rules": rules, "parallelism": par, "repeat": rep,
-					"first_difference": firstDiff(base.Snaps, o.Snaps),
+					"first_difference":  firstDiff(base.Snaps, o.Snaps),
 					"baseline_rendered": truncStr(base.Rendered, 4000), "other_rendered": truncStr(o.Rendered, 4000),
 					"baseline_fatal": base.Fatal, "other_fatal": o.Fatal, "baseline_panic": base.Panic, "other_panic": o.Panic,
 				})
@@ -463,10 +463,10 @@ func forEachPerm(n int, f func([]int) bool) {
 }
 
 type canonCase struct {
-	ID        string
-	Specs     []dspec
-	DupPaths  bool // the pool holds two File objects with one path
-	KeepDup   bool
+	ID         string
+	Specs      []dspec
+	DupPaths   bool // the pool holds two File objects with one path
+	KeepDup    bool
 	Exhaustive bool
 }
 
